@@ -52,7 +52,8 @@ def tm_forward(H):
             nar = T(it, "torch.narrow", srt, dim=0, start=b, length=m - 2 * b)
             spec = T(it, "torch.sum", nar)  # placeholder replaced below
             spec = it.call(it.getattr(nar, "mean"), [], {"dim": 0})
-            cx.oblige("C16.tm.args.post", same_term(v, spec))
+            cx.oblige("C16.tm.args.post", same_term(v, spec),
+                      numeric={"code": v.term, "cases": [(z3.BoolVal(True), spec.term)], "call": {"cls": TM, "kwargs": {"trim_number": b}, "input": "J"}})
             cx.oblige("C16.tm.args.kept_rows_positive", m - 2 * b >= 1)
     H.explore(body)
 
@@ -114,7 +115,9 @@ def krum_forward(H):
             cnt = it.call(it.getattr(cnt, "to"), [], {"dtype": J.dtype})
             w = P.binop(it, _ast.Div(), cnt, k)
             spec = P.binop(it, _ast.MatMult(), w, J)
-        cx.oblige("C16.krum.args.post", same_term(v, spec))
+        cx.oblige("C16.krum.args.post", same_term(v, spec),
+                  numeric={"code": v.term, "cases": [(z3.BoolVal(True), spec.term)],
+                           "call": {"cls": KR, "kwargs": {"n_byzantine": f, "n_selected": k}, "input": "J"}})
         cx.oblige("C16.krum.args.neighbourhood_nonneg", q >= 1)
     H.explore(body)
 
